@@ -25,7 +25,8 @@
 //!                             with no segment) equal the exact even-odd intervals of the row's line
 //!                             (zero-length intervals dropped, touching ones merged; on a row that
 //!                             contains a horizontal edge either one-sided limit is accepted)
-//!   * `dots/inside`, `dots/on-row`, `dots/aligned`, `dots/row-calls`
+//!   * `dots/inside`, `dots/on-row`, `dots/row-spacing`, `dots/aligned`, `dots/row-calls`,
+//!     `dots/position-finite` (class `zero-length-segment-normalize`: known finding)
 
 use std::cell::RefCell;
 
@@ -1111,7 +1112,15 @@ fn dots_case(ctx: &mut Ctx, curved: bool) {
                     let rows_off = if pat.regular { Offsets { regular: true, tab: vec![], tail: pat.ri } } else { pat.rows.clone() };
                     let asum: f64 = (0..8).map(|k| (rows_off.at(k) as f64).abs()).fold(0.0, f64::max);
                     let fr = frame(&sh.evs, angle, uv, tol, asum);
-                    dots_oracle(&mut orc, &fr, items, &pat, &rows_off, well_formed(&sh.evs));
+                    let rerun = || -> Vec<HS> {
+                        // the hatch segments the dots were derived from (same options, tangents off)
+                        run_hatch(&sh.evs, angle, uv, false, tol, &rows_off, false)
+                            .unwrap_or_default()
+                            .into_iter()
+                            .filter_map(|it| if let HItem::Seg(s) = it { Some(s) } else { None })
+                            .collect()
+                    };
+                    dots_oracle(&mut orc, &fr, items, &pat, &rows_off, well_formed(&sh.evs), &rerun);
                 }
             }
             CaseOut { imp: o, orcl: orc.verdict }
@@ -1119,7 +1128,7 @@ fn dots_case(ctx: &mut Ctx, curved: bool) {
     });
 }
 
-fn dots_oracle(orc: &mut Oracle, fr: &Frame, items: &[DItem], pat: &DotPat, rows: &Offsets, wf: bool) {
+fn dots_oracle(orc: &mut Oracle, fr: &Frame, items: &[DItem], pat: &DotPat, rows: &Offsets, wf: bool, segs: &dyn Fn() -> Vec<HS>) {
     // row calls: rows 0,1,2,…; the column passed is the number of dots of the row just finished
     let mut expect = 0u32;
     let mut ndots_in_row = 0u32;
@@ -1168,6 +1177,15 @@ fn dots_oracle(orc: &mut Oracle, fr: &Frame, items: &[DItem], pat: &DotPat, rows
                 continue;
             }
             let (x, y) = (d.pos.x as f64, d.pos.y as f64);
+            if !(x.is_finite() && y.is_finite()) && d.u.is_finite() && d.v.is_finite() {
+                // witness class of the known finding: the dot comes from a hatch segment whose two
+                // ends round to the same world position although a.u < b.u; `normalize()` of the
+                // zero vector is NaN
+                let degenerate = segs().iter().any(|s| s.row == d.row && s.ap == s.bp && s.au < s.bu && s.au <= d.u && d.u < s.bu);
+                let class = if degenerate { "zero-length-segment-normalize" } else { "generic" };
+                orc.check(false, "dots/position-finite", class, || format!("dot row {} col {} u={} v={} has position ({},{})", d.row, d.col, d.u, d.v, x, y));
+                continue;
+            }
             // a dot sits `u - a.u` along the segment from its left end: rounding grows with that length
             let tol = 4.0 * EPS32 * (fr.scale + asum + (d.u as f64).abs()) * (k as f64 + 6.0);
             let yrow = d.v as f64 + fr.uvo.1;
@@ -1197,7 +1215,7 @@ fn dots_oracle(orc: &mut Oracle, fr: &Frame, items: &[DItem], pat: &DotPat, rows
 
 fn main() {
     let mut ctx = Ctx::from_args("C20");
-    let n = ctx.n(1000, 40000);
+    let n = ctx.n(4000, 150000);
     for i in 0..n {
         hatch_case(&mut ctx, false);
         hatch_case(&mut ctx, false);
